@@ -1,4 +1,5 @@
 import AndaVerif.Proofs.LifecycleSteps
+import AndaVerif.Proofs.LifecycleGuards
 /-
 C06 — closed, deleted, poisoned or read-only handles never write; cancel = crash.
 
@@ -63,6 +64,27 @@ theorem guard_before_first_effect :
   have h : CollectionGuards.methods.all (fun m => methodOK m && innerCallersOK m) = true := by decide
   intro m hm
   simpa using List.all_eq_true.mp h m hm
+
+/-- What the accepted shape is, for **every** marker list: up to lifecycle loads, a `GuardOK` skeleton is
+`gate :: ensure_mutable()? :: cancel_guard :: body ++ disarm :: poison*` where the body consists of storage mutations,
+calls, awaits and poison calls only — i.e. exactly the program of the model's `mutator` thread
+(`mStart → mLeased → mAdmitted → mBody … → mDisarmed → mRelease`). -/
+theorem guard_shape_meaning (l : List CollectionGuards.Mk) (h : GuardOK l = true) :
+    ∃ g body ps, strip l = g :: .ensureMutable :: .cancelGuard :: body ++ .disarm :: ps ∧
+      (g = .gateRead ∨ g = .gateWrite) ∧ body.all isBodyMk = true ∧ ps.all (· == .poison) = true :=
+  guardOK_shape l h
+
+example : GuardOK [.gateRead, .ensureMutable, .cancelGuard, .call "add_impl", .awaitPt, .disarm] = true := by decide
+example : GuardOK [.gateRead, .ensureMutable, .call "add_impl", .awaitPt, .cancelGuard, .disarm] = false := by decide
+example : GuardOK [.ensureMutable, .gateRead, .cancelGuard, .call "add_impl", .awaitPt, .disarm] = false := by decide
+
+/-- `flush_inner` — the body of `close` (and of `flush`) — never reaches `self.poison(..)`: inside the
+closer's body the lifecycle is only changed by a concurrent `begin_delete` (what `TI.closerLc` relies on);
+`add` / `update` / `remove` bodies may poison (modelled by the body step `B.poison`). -/
+theorem close_body_never_poisons :
+    (lookup "flush_inner").map (·.poisons) = some false ∧
+    ((lookup "add_impl").map (·.poisons) = some true ∧ (lookup "update_impl").map (·.poisons) = some true ∧
+      (lookup "remove_impl").map (·.poisons) = some true) := by decide
 
 /-- `begin_delete` has the skeleton the dropper's first two steps mirror. -/
 theorem begin_delete_skeleton :
@@ -150,5 +172,122 @@ example :
       .spawn (.mutator false false) [.put 1], .step 1, .step 0, .step 0, .step 0, .step 0, .step 0, .step 0,
       .step 1, .step 1]
     c.s.lc = .closed ∧ (c.ts[1]?).map (·.pc) = some (.done (.rejState .closed)) ∧ c.s.store = [9] := by decide
+
+/-! ## database-level order (generated from `database.rs`) -/
+
+/-- `AndaDB::delete_collection`: read-only refusal, per-name lock, tombstone published *before* the
+handle is moved to DELETING, database metadata persisted before any object is dropped, registry entry
+and tombstone removed only after the last `drop_data`.  `close_collection`: lock, close, then
+unregister.  `open_collection_with_schema`: tombstone consulted before the registry fast path and
+again under the lock; a retiring handle is drained / closed and unregistered before `Collection::open`;
+the tombstone is consulted a third time before registering; the flush of a fresh handle is skipped on
+a read-only database.  `AndaDB::set_read_only`: the shared flag is stored before any collection is told. -/
+theorem db_protocol_order :
+    inOrder ["dbRoCheck", "nameLock", "tombInsert", "beginDelete", "metaRemove", "flushMeta", "dropData", "regRemove", "tombRemove"]
+      Lifecycle.db_delete_collection = true ∧
+    lastIdxOf "dropData" Lifecycle.db_delete_collection < idxOf "regRemove" Lifecycle.db_delete_collection ∧
+    inOrder ["nameLock", "collClose", "regRemove"] Lifecycle.db_close_collection = true ∧
+    inOrder ["tombCheck", "activeCheck", "nameLock", "poisonCheck", "drain", "collClose", "regRemove", "collOpen", "regInsert", "dbRoCheck", "collFlush"]
+      Lifecycle.db_open_collection_with_schema = true ∧
+    (Lifecycle.db_open_collection_with_schema.filter (· == "tombCheck")).length = 3 ∧
+    idxOf "nameLock" Lifecycle.db_open_collection_with_schema <
+      (Lifecycle.db_open_collection_with_schema.drop (idxOf "nameLock" Lifecycle.db_open_collection_with_schema)).findIdx (· == "tombCheck")
+        + idxOf "nameLock" Lifecycle.db_open_collection_with_schema ∧
+    lastIdxOf "tombCheck" Lifecycle.db_open_collection_with_schema < idxOf "regInsert" Lifecycle.db_open_collection_with_schema ∧
+    idxOf "collOpen" Lifecycle.db_open_collection_with_schema < lastIdxOf "tombCheck" Lifecycle.db_open_collection_with_schema ∧
+    inOrder ["roStoreDb", "collSetRo"] Lifecycle.db_set_read_only = true := by
+  decide
+
+/-! ## log_sound (the history form of no_write_when_retired) -/
+
+/-- Every storage mutation that ever happened under the prefix, in every history: a guarded mutator
+never wrote while the handle was CLOSED or DELETED; `close` wrote only while CLOSING (or DELETING, when a
+delete began during its flush); `drop_data` never wrote on an ACTIVE handle nor after DELETED. -/
+theorem log_sound (store : List Nat) (evs : List Ev) :
+    ∀ e ∈ ((init store).run evs).s.log, entryOK e :=
+  (inv_run (inv_init store) evs).logSound
+
+example : ((init [7]).run [.spawn (.mutator false false) [.put 1], .step 0, .step 0, .step 0, .step 0,
+    .spawn .closer [.put 2], .step 1, .step 1, .step 0, .step 0, .step 0, .step 1, .step 1, .step 1, .step 1]).s.log
+    = [(1, .closing, .close), (0, .active, .mut)] := by decide
+
+/-! ## cancel_is_crash -/
+
+/-- Dropping the future of any call at any step boundary, in any reachable configuration: the drop
+itself changes nothing stored; if the cancel guard was armed the handle ends POISONED (or stays DELETING);
+and in every case one of — the call had not written anything (no effect), — the handle is no longer
+ACTIVE (poisoned / closing / deleting: only a reopen gives a writer again, `lifecycle_monotone`), — the
+call's body had already run to its end (a complete effect, not a partial one). -/
+theorem cancel_is_crash (store : List Nat) (evs : List Ev) (i : Nat) (t : Thread)
+    (hget : ((init store).run evs).ts[i]? = some t) :
+    (((init store).run evs).apply (.cancel i)).s.store = ((init store).run evs).s.store ∧
+    (((init store).run evs).apply (.cancel i)).s.log = ((init store).run evs).s.log ∧
+    (t.armed = true → (((init store).run evs).apply (.cancel i)).s.lc = .poisoned ∨
+                      (((init store).run evs).apply (.cancel i)).s.lc = .deleting) ∧
+    (writesBy i ((init store).run evs).s.log = 0 ∨
+     (((init store).run evs).apply (.cancel i)).s.lc ≠ .active ∨ t.postBody = true) := by
+  have hinv := inv_run (inv_init store) evs
+  have hti := hinv.thr i t hget
+  have hs : (((init store).run evs).apply (.cancel i)).s = (cancelT i ((init store).run evs).s t).1 := by
+    simp only [Cfg.apply, hget]
+  rw [hs]
+  refine ⟨(cancelT_silent i _ t).1, (cancelT_silent i _ t).2, ?_, ?_⟩
+  · intro ha
+    rw [cancelT_lc_armed ha]
+    have hb := armed_body ha
+    have h1 : ((init store).run evs).s.lc ≠ .closed := by
+      intro h; have := hti.retired (.inl h); rw [hb] at this; exact absurd this (by simp)
+    have h2 : ((init store).run evs).s.lc ≠ .deleted := by
+      intro h; have := hti.retired (.inr h); rw [hb] at this; exact absurd this (by simp)
+    cases hl : ((init store).run evs).s.lc <;> simp_all [poisonL]
+  · rcases pc_cases t with h | h | h | h
+    · left; exact hti.pre h
+    · right; left; rw [cancelT_lc_armed h]; exact poisonL_ne_active _
+    · cases ha : t.armed with
+      | true => right; left; rw [cancelT_lc_armed ha]; exact poisonL_ne_active _
+      | false => right; left; rw [cancelT_lc_unarmed ha]; exact hti.dropLc h
+    · right; right; exact h
+
+/-- non-vacuity: an `add` dropped after its first write poisons; dropped while still queued it does not -/
+example : ((init []).run [.spawn (.mutator false false) [.put 1, .put 2], .step 0, .step 0, .step 0, .step 0, .cancel 0]).s.lc
+    = .poisoned := by decide
+example : ((init []).run [.spawn (.mutator false false) [.put 1, .put 2], .step 0, .cancel 0]).s.lc = .active := by decide
+
+/-! ## delete_leaves_nothing -/
+
+/-- Whenever `drop_data` returns Ok — in any reachable configuration, by either of its two Ok paths —
+the handle is DELETED and nothing is stored under the prefix … -/
+theorem delete_leaves_nothing (store : List Nat) (evs : List Ev) (i : Nat) (t t' : Thread) (s' : Shared)
+    (hget : ((init store).run evs).ts[i]? = some t)
+    (hstep : stepT i ((init store).run evs).s t = some (s', t'))
+    (hd : t.dropStarted = true) (hok : t'.pc = .done .ok) :
+    s'.lc = .deleted ∧ s'.store = [] := by
+  have hinv := inv_run (inv_init store) evs
+  have hinv' : Inv (((init store).run evs).apply (.step i)) := inv_apply hinv _
+  have hs : (((init store).run evs).apply (.step i)).s = s' := by
+    simp only [Cfg.apply, hget, hstep]
+  have h := stepT_drop_ok hstep (hinv.thr i t hget) hd hok
+  refine ⟨h.1, ?_⟩
+  have := hinv'.delEmpty
+  rw [hs] at this
+  exact this h.1
+
+/-- … and from then on, whatever any retained handle is asked to do, under any schedule, it stays
+DELETED, nothing is ever stored there again and no mutation is logged. -/
+theorem deleted_is_final (store : List Nat) (evs evs' : List Ev)
+    (hd : ((init store).run evs).s.lc = .deleted) :
+    (((init store).run evs).run evs').s.lc = .deleted ∧
+    (((init store).run evs).run evs').s.log = ((init store).run evs).s.log ∧
+    (((init store).run evs).run evs').s.store = [] :=
+  run_deleted (inv_run (inv_init store) evs) hd evs'
+
+/-- non-vacuity: delete over three objects with an add in flight; afterwards a retained handle's add is rejected -/
+example :
+    let c := (init [1, 2, 3]).run [.spawn (.mutator false false) [.put 4], .step 0, .step 0, .step 0,
+      .spawn .dropper [.rd, .del 1, .del 2, .del 3, .del 4], .step 1, .step 1, .step 1, .step 0, .step 0, .step 0, .step 0,
+      .step 1, .step 1, .step 1, .step 1, .step 1, .step 1, .step 1, .step 1, .step 1, .step 1,
+      .spawn (.mutator false false) [.put 5], .step 2, .step 2]
+    c.s.lc = .deleted ∧ c.s.store = [] ∧ (c.ts[1]?).map (·.pc) = some (.done .ok) ∧
+      (c.ts[2]?).map (·.pc) = some (.done (.rejState .deleted)) := by decide
 
 end AndaVerif.C06
